@@ -6,6 +6,7 @@ From ZV.C18 Require Import ModelPipe ProofsPipe ProofsPipeStream.
 From ZV.C18 Require Import ModelExec ProofsExec ProofsExec2.
 From ZV.C18 Require Import ModelGlobalPar ProofsGlobalPar.
 From ZV.C18 Require Import ModelYield ProofsYield ProofsBuffered.
+From ZV.C18 Require Import ModelStore ProofsStore.
 (* the dispatcher the harness-generated case files import: listed here so that building this file builds it *)
 From ZV.C18 Require ModelCases.
 From Coq Require Import Permutation.
@@ -839,3 +840,51 @@ Check stage_process_batch_is_map :
        fst (stage_batch_func bf xs) = map_opt f xs /\ calls (snd (stage_batch_func bf xs)) = [xs]) /\
     (forall l, map_opt f xs = Some l -> length l = length xs).
 Print Assumptions stage_process_batch_is_map.
+
+(* AsyncMemoryBlobStore (and the trait's default batch operations): in every state in which no id at or beyond next_id is in use and
+   fewer than 2^32 ids have been handed out, get_batch(put_batch(ds)) = ds - one id per blob in input order, pairwise distinct, none of
+   them in use before, every older record unchanged *)
+Theorem blob_batch_roundtrip :
+  forall (s : mstore) (ds : list blob), bounded s -> ms_next s + nlen ds <= U32 ->
+    let '(s', ids) := ms_put_batch s ds in
+    ms_get_batch s' ids = Some ds /\ length ids = length ds /\ NoDup ids /\
+    (forall id, In id ids -> ms_get s id = None /\ id < U32) /\
+    (forall id, id < ms_next s -> ms_get s' id = ms_get s id) /\
+    bounded s' /\ ms_next s' = ms_next s + nlen ds.
+Proof. exact blob_batch_roundtrip_proof. Qed.
+Check blob_batch_roundtrip :
+  forall (s : mstore) (ds : list blob), bounded s -> ms_next s + nlen ds <= U32 ->
+    let '(s', ids) := ms_put_batch s ds in
+    ms_get_batch s' ids = Some ds /\ length ids = length ds /\ NoDup ids /\
+    (forall id, In id ids -> ms_get s id = None /\ id < U32) /\
+    (forall id, id < ms_next s -> ms_get s' id = ms_get s id) /\
+    bounded s' /\ ms_next s' = ms_next s + nlen ds.
+Print Assumptions blob_batch_roundtrip.
+
+(* the state invariant holds for the new store and is kept by put / remove (put_batch: above), so it holds after every history;
+   put then get returns the blob under a fresh id, remove fails exactly on an absent id, get_batch is the lookups in order and Err iff
+   one id is missing *)
+Theorem store_ops :
+  bounded ms_new /\
+  (forall s d, bounded s -> ms_next s < U32 ->
+     bounded (fst (ms_put s d)) /\ ms_get (fst (ms_put s d)) (snd (ms_put s d)) = Some d /\ ms_get s (snd (ms_put s d)) = None /\
+     (forall id, id <> snd (ms_put s d) -> ms_get (fst (ms_put s d)) id = ms_get s id)) /\
+  (forall s id, bounded s ->
+     bounded (fst (ms_remove s id)) /\ ms_get (fst (ms_remove s id)) id = None /\
+     (forall id', id' <> id -> ms_get (fst (ms_remove s id)) id' = ms_get s id') /\
+     (snd (ms_remove s id) = true <-> ms_get s id <> None)) /\
+  (forall s ids (g : N -> blob), (forall id, In id ids -> ms_get s id = Some (g id)) -> ms_get_batch s ids = Some (map g ids)) /\
+  (forall s ids id, In id ids -> ms_get s id = None -> ms_get_batch s ids = None).
+Proof. exact store_ops_proof. Qed.
+Check store_ops :
+  bounded ms_new /\
+  (forall s d, bounded s -> ms_next s < U32 ->
+     bounded (fst (ms_put s d)) /\ ms_get (fst (ms_put s d)) (snd (ms_put s d)) = Some d /\ ms_get s (snd (ms_put s d)) = None /\
+     (forall id, id <> snd (ms_put s d) -> ms_get (fst (ms_put s d)) id = ms_get s id)) /\
+  (forall s id, bounded s ->
+     bounded (fst (ms_remove s id)) /\ ms_get (fst (ms_remove s id)) id = None /\
+     (forall id', id' <> id -> ms_get (fst (ms_remove s id)) id' = ms_get s id') /\
+     (snd (ms_remove s id) = true <-> ms_get s id <> None)) /\
+  (forall s ids (g : N -> blob), (forall id, In id ids -> ms_get s id = Some (g id)) -> ms_get_batch s ids = Some (map g ids)) /\
+  (forall s ids id, In id ids -> ms_get s id = None -> ms_get_batch s ids = None).
+Print Assumptions store_ops.
